@@ -77,7 +77,7 @@ func childOp(name string, a []string) string {
 	cmd.Stdout = &out
 	cmd.Run()
 	for _, line := range strings.Split(out.String(), "\n") {
-		if i := strings.IndexByte(line, '\t'); i >= 0 && strings.HasPrefix(line, name+" ") {
+		if i := strings.IndexByte(line, '\t'); i >= 0 && i+1 < len(line) && strings.HasPrefix(line, name+" ") { // an op line without a result: the child ended inside the op
 			return line[i+1:]
 		}
 	}
